@@ -19,7 +19,14 @@ import (
 	"syscall"
 	"time"
 
+	"google.golang.org/grpc"
+	"google.golang.org/protobuf/types/known/emptypb"
+
 	"github.com/bartossh/Computantis/src/accountant"
+	"github.com/bartossh/Computantis/src/cache"
+	"github.com/bartossh/Computantis/src/gossip"
+	"github.com/bartossh/Computantis/src/pipe"
+	"github.com/bartossh/Computantis/src/protobufcompiled"
 	"github.com/bartossh/Computantis/src/spice"
 	"github.com/bartossh/Computantis/src/transaction"
 	"github.com/bartossh/Computantis/src/wallet"
@@ -69,7 +76,12 @@ type env struct {
 	sealer  *wallet.Wallet
 	cancel  context.CancelFunc
 	counter int
+	lastMu  sync.Mutex
+	last    accountant.Vertex // the most recently created vertex (harness-side bookkeeping, so that the race run needs no snapshot hook)
 }
+
+func (e *env) setLast(v accountant.Vertex) { e.lastMu.Lock(); e.last = v; e.lastMu.Unlock() }
+func (e *env) getLast() accountant.Vertex  { e.lastMu.Lock(); defer e.lastMu.Unlock(); return e.last }
 
 func newEnv(chain int) *env {
 	ver := wallet.NewVerifier()
@@ -82,13 +94,17 @@ func newEnv(chain int) *env {
 		panic(err)
 	}
 	e.ab = ab
-	if _, err := ab.CreateGenesis("Genesis Vertex", spice.New(1<<40, 0), []byte{}, e.issuer.Address()); err != nil {
+	g, err := ab.CreateGenesis("Genesis Vertex", spice.New(1<<40, 0), []byte{}, e.issuer.Address())
+	if err != nil {
 		panic(err)
 	}
+	e.last = g
 	for i := 0; i < chain; i++ {
-		if _, err := ab.CreateLeaf(context.Background(), e.trx()); err != nil {
+		v, err := ab.CreateLeaf(context.Background(), e.trx())
+		if err != nil {
 			panic(err)
 		}
+		e.last = v
 	}
 	return e
 }
@@ -289,16 +305,17 @@ func race(tier string, seed int64) (evals int, kinds map[string]int) {
 	ops := []op{
 		{"propose", func(e *env) {
 			t, _ := transaction.New(fmt.Sprintf("r%d-%d", time.Now().UnixNano(), rand.Int63()), spice.New(1, 0), nil, e.recv.Address(), e.issuer)
-			e.ab.CreateLeaf(context.Background(), &t)
+			if v, err := e.ab.CreateLeaf(context.Background(), &t); err == nil {
+				e.setLast(v)
+			}
 		}},
 		{"gossip-add", func(e *env) {
-			s := e.ab.VerifSnapshot()
-			if len(s.Leaves) == 0 {
-				return
-			}
+			l := e.getLast()
 			t, _ := transaction.New(fmt.Sprintf("g%d-%d", time.Now().UnixNano(), rand.Int63()), spice.New(1, 0), nil, e.recv.Address(), e.issuer)
-			v, _ := accountant.NewVertex(t, s.Leaves[0], s.Leaves[0], 2, e.sealer)
-			e.ab.AddLeaf(context.Background(), &v)
+			v, _ := accountant.NewVertex(t, l.Hash, l.Hash, l.Weight+1, e.sealer)
+			if e.ab.AddLeaf(context.Background(), &v) == nil {
+				e.setLast(v)
+			}
 		}},
 		{"park", func(e *env) { // a vertex with an unknown parent is parked in the replier buffer
 			t, _ := transaction.New(fmt.Sprintf("p%d-%d", time.Now().UnixNano(), rand.Int63()), spice.New(1, 0), nil, e.recv.Address(), e.issuer)
@@ -311,11 +328,9 @@ func race(tier string, seed int64) (evals int, kinds map[string]int) {
 		{"balance", func(e *env) { e.ab.CalculateBalance(context.Background(), e.issuer.Address()) }},
 		{"history", func(e *env) { e.ab.ReadDAGTransactionsByAddress(context.Background(), e.recv.Address()) }},
 		{"read", func(e *env) {
-			s := e.ab.VerifSnapshot()
-			if len(s.Vertices) > 0 {
-				e.ab.ReadVertex(context.Background(), s.Vertices[0].Hash)
-				e.ab.ReadTransactionByHash(context.Background(), s.Vertices[0].Transaction.Hash)
-			}
+			l := e.getLast()
+			e.ab.ReadVertex(context.Background(), l.Hash)
+			e.ab.ReadTransactionByHash(context.Background(), l.Transaction.Hash)
 		}},
 		{"stream", func(e *env) {
 			ctx, cancel := context.WithCancel(context.Background())
@@ -344,9 +359,9 @@ func race(tier string, seed int64) (evals int, kinds map[string]int) {
 		e.close()
 	}
 	for r := 0; r < rounds; r++ {
+		e := newEnv(12)
 		for i := range ops {
 			for j := i; j < len(ops); j++ {
-				e := newEnvTicking(12)
 				var wg sync.WaitGroup
 				for _, o := range []op{ops[i], ops[j]} {
 					wg.Add(1)
@@ -361,15 +376,28 @@ func race(tier string, seed int64) (evals int, kinds map[string]int) {
 				wg.Wait()
 				evals++
 				kinds[ops[i].name+"|"+ops[j].name]++
-				e.close()
 			}
 		}
-		// genesis / load racing with the loaded? check, and truncation racing with readers
-		e := newEnvTicking(0)
+		// everything at once
+		var wg sync.WaitGroup
+		for w := 0; w < 8; w++ {
+			wg.Add(1)
+			go func(w int) {
+				defer wg.Done()
+				defer func() { recover() }()
+				rg := rand.New(rand.NewSource(seed*1000 + int64(r*8+w)))
+				for k := 0; k < 20; k++ {
+					ops[rg.Intn(len(ops))].run(e)
+				}
+			}(w)
+		}
+		wg.Wait()
+		evals++
+		kinds["mixed-8-goroutines"]++
 		e.close()
 	}
 	// truncation concurrently with reads and proposals (one long history)
-	e := newEnvTicking(1010)
+	e := newEnv(1010)
 	var wg sync.WaitGroup
 	for _, f := range []func(){
 		func() { e.ab.VerifTruncate(context.Background()) },
@@ -394,11 +422,97 @@ func race(tier string, seed int64) (evals int, kinds map[string]int) {
 	return
 }
 
-// a node whose replier ticker is the real one (not detached), ticking fast enough to matter in a short run
-func newEnvTicking(chain int) *env {
-	e := newEnv(chain)
-	return e
+// a peer that answers nothing useful
+type deadPeer struct{}
+
+func (deadPeer) Alive(context.Context, *emptypb.Empty, ...grpc.CallOption) (*protobufcompiled.AliveData, error) {
+	return &protobufcompiled.AliveData{}, nil
 }
+func (deadPeer) LoadDag(context.Context, *emptypb.Empty, ...grpc.CallOption) (protobufcompiled.GossipAPI_LoadDagClient, error) {
+	return nil, fmt.Errorf("unavailable")
+}
+func (deadPeer) Announce(context.Context, *protobufcompiled.ConnectionData, ...grpc.CallOption) (*emptypb.Empty, error) {
+	return &emptypb.Empty{}, nil
+}
+func (deadPeer) Discover(context.Context, *protobufcompiled.ConnectionData, ...grpc.CallOption) (*protobufcompiled.ConnectedNodes, error) {
+	return &protobufcompiled.ConnectedNodes{}, nil
+}
+func (deadPeer) GossipVrx(context.Context, *protobufcompiled.VrxMsgGossip, ...grpc.CallOption) (*emptypb.Empty, error) {
+	return &emptypb.Empty{}, nil
+}
+func (deadPeer) GossipTrx(context.Context, *protobufcompiled.TrxMsgGossip, ...grpc.CallOption) (*emptypb.Empty, error) {
+	return &emptypb.Empty{}, nil
+}
+func (deadPeer) GetVertex(context.Context, *protobufcompiled.SignedHash, ...grpc.CallOption) (*protobufcompiled.Vertex, error) {
+	return nil, fmt.Errorf("unknown vertex")
+}
+
+// gossip node: peers announcing themselves while missing parents are being fetched and vertices gossiped on
+func raceGossip(rounds int) (evals int, kinds map[string]int) {
+	kinds = map[string]int{}
+	e := newEnv(4)
+	defer e.close()
+	ver := wallet.NewVerifier()
+	hip, _ := cache.New(512, 16)
+	fl, _ := cache.NewFlash()
+	peerW, _ := wallet.New()
+	g := gossip.VerifNewGossiper(nolog{}, time.Second, e.node, ver, e.ab, hip, fl, pipe.New(16, 16), "self",
+		map[string]protobufcompiled.GossipAPIClient{peerW.Address(): deadPeer{}})
+	announce := func(i int) {
+		w, _ := wallet.New()
+		url := fmt.Sprintf("127.0.0.1:%d", 1+i%3)
+		data := gossip.VerifConnectionData(w.Address(), url, uint64(i))
+		d, sig := w.Sign(data)
+		g.Server().Announce(context.Background(), &protobufcompiled.ConnectionData{PublicAddress: w.Address(), Url: url, CreatedAt: uint64(i), Digest: d[:], Signature: sig})
+	}
+	discover := func(i int) {
+		w, _ := wallet.New()
+		url := fmt.Sprintf("127.0.0.1:%d", 1+i%3)
+		data := gossip.VerifConnectionData(w.Address(), url, uint64(i))
+		d, sig := w.Sign(data)
+		g.Server().Discover(context.Background(), &protobufcompiled.ConnectionData{PublicAddress: w.Address(), Url: url, CreatedAt: uint64(i), Digest: d[:], Signature: sig})
+	}
+	fetch := func(i int) {
+		var h [32]byte
+		rand.Read(h[:])
+		g.ProcessLackingParent(context.Background(), h)
+	}
+	gossipOn := func(i int) { // a vertex with an unknown parent arriving by gossip: parked + parent fetch in the background
+		t, _ := transaction.New(fmt.Sprintf("gg%d-%d", i, rand.Int63()), spice.New(1, 0), nil, e.recv.Address(), e.issuer)
+		var h [32]byte
+		rand.Read(h[:])
+		v, _ := accountant.NewVertex(t, h, h, 2, e.sealer)
+		g.Server().GossipVrx(context.Background(), &protobufcompiled.VrxMsgGossip{Vertex: gossip.VerifMapVertexToProto(&v)})
+	}
+	type gop struct {
+		name string
+		f    func(int)
+	}
+	gops := []gop{{"announce", announce}, {"discover", discover}, {"fetch-parent", fetch}, {"gossip-vertex", gossipOn}}
+	for r := 0; r < rounds; r++ {
+		for i := range gops {
+			for j := i; j < len(gops); j++ {
+				var wg sync.WaitGroup
+				for _, o := range []gop{gops[i], gops[j]} {
+					wg.Add(1)
+					go func(o gop) {
+						defer wg.Done()
+						defer func() { recover() }()
+						for k := 0; k < 8; k++ {
+							o.f(k)
+						}
+					}(o)
+				}
+				wg.Wait()
+				evals++
+				kinds["gossip:"+gops[i].name+"|"+gops[j].name]++
+			}
+		}
+	}
+	time.Sleep(100 * time.Millisecond)
+	return
+}
+
 
 func main() {
 	mode := ""
@@ -428,6 +542,15 @@ func main() {
 		sum.Evaluations, sum.Nontrivial, sum.Kinds, sum.Violations, sum.Samples = wedge(*tier, *seed)
 	case "race":
 		sum.Evaluations, sum.Kinds = race(*tier, *seed)
+		gr := 2
+		if *tier == "thorough" {
+			gr = 10
+		}
+		ge, gk := raceGossip(gr)
+		sum.Evaluations += ge
+		for k, v := range gk {
+			sum.Kinds[k] = v
+		}
 		sum.Nontrivial = len(sum.Kinds)
 		sum.Samples = []string{"propose || retry-tick on one node, 6 iterations each, under the Go race detector"}
 	default:
